@@ -5,7 +5,9 @@ path-sum specification `PN` on the graph read as an ε-labelled automaton (exact
 and idempotent semirings, deep IEEE truncation with geometric tail otherwise); the solvers are
 `b·A*` / `A*·b`.  The component decomposition is decided by the verified checker `sccCheck`
 (`sccCheck_iff`: true ⇔ the blocks are exactly the SCCs in an order compatible with the edges).
-Structural: the mirror models `closureScc`, `closureRef` (Lehmann), `solveLeft`, `solveRight` run on the
+Structural: the proved model `tarjan` of `scc_decomposition` (Model/Tarjan.lean, `tarjan_correct`) is run on the iteration orders of
+`G.N` and `G.incoming[v]` observed in the worker right before `G.blocks`, and must emit the same components in the same order, under every
+hash seed; the mirror models `closureScc`, `closureRef` (Lehmann), `solveLeft`, `solveRight` run on the
 implementation's own blocks (`solveLeft_eq`, `solveRight_eq`, `lehmann_closed` are proved)."""
 import hashlib
 import json
@@ -28,6 +30,8 @@ def impl(case):
         return G
     G = mk()
     try:
+        # the iteration orders Tarjan is about to see (same object, same process, read BEFORE `G.blocks` runs it)
+        out["tarjan"] = common.tarjan_observe(G)
         out["blocks"] = [sorted((common.enc_sym(q) for q in blk), key=common.symkey) for blk in G.blocks]
         out["edges"] = [[common.enc_sym(i), common.enc_sym(j), common.enc_w(w, R)] for (i, j), w in G.E.items()]
     except Exception as e:  # noqa
@@ -166,7 +170,7 @@ def run(ctx):
     evaluations = traces = 0
     nontrivial = set()
     shapes = {}
-    stats = {"multi_node_blocks": 0, "blocks": 0, "unconverged": 0, "structural": 0}
+    stats = {"multi_node_blocks": 0, "blocks": 0, "unconverged": 0, "structural": 0, "tarjan_runs": 0, "tarjan_multi_node_blocks": 0}
     lops, lidx = [], []
     for c in cases:
         shapes[c["shape"]] = shapes.get(c["shape"], 0) + 1
@@ -175,6 +179,25 @@ def run(ctx):
             lops.append({"op": "linear", "R": c["R"], "nodes": c["nodes"], "edges": r0["edges"], "blocks": r0["blocks"], "b": c["b"]})
             lidx.append(c)
     lean = {c["id"]: r for c, r in zip(lidx, ctx["lean"](lops))}
+    # the proved model of `scc_decomposition` run on the iteration orders observed in each worker process (every hash seed):
+    # it must emit the SAME components in the SAME order as the real `G.blocks`
+    tops, tidx = [], []
+    for c in cases:
+        for hs in hashseeds:
+            r = impl_res[hs].get(c["id"])
+            if r and isinstance(r.get("blocks"), list) and "tarjan" in r:
+                tops.append(common.tarjan_op(r["tarjan"]))
+                tidx.append((c, hs, r))
+    for (c, hs, r), m in zip(tidx, ctx["lean"](tops)):
+        evaluations += 1
+        stats["tarjan_runs"] += 1
+        ok, why = common.tarjan_same(m, r["blocks"])
+        if ok:
+            traces += 1
+            stats["tarjan_multi_node_blocks"] += sum(1 for b in r["blocks"] if len(b) > 1)
+        else:
+            structural.append({"op": "scc_decomposition", "what": why, "orders": r["tarjan"], "model": m.get("blocks"), "impl": r["blocks"],
+                               "case_id": c["id"], "hashseed": hs, "case": c})
     alg_add = {"Boolean": (lambda a, b: a or b), "MaxTimes": max, "Lang": (lambda a, b: sorted(set(a) | set(b)))}
 
     def lmul(a, b):
@@ -287,7 +310,9 @@ def run(ctx):
         "samples": samples, "traces": traces, "semantic": semantic, "structural": structural,
         "extra": {"shape_histogram": shapes, "hashseeds": hashseeds, "stats": stats, "cases": len(cases)},
         "assumptions": ["cyclic graphs over Float/Real: path sums truncated at 120 arcs in IEEE arithmetic, compared with rtol 1e-7 where the truncations at 120 and 60 agree to 1e-12"],
-        "trusted": ["Tarjan's algorithm is not modelled: its output is decided per run by the verified checker sccCheck"],
+        "trusted": ["Tarjan's algorithm: the proved model `tarjan` (tarjan_correct, every iteration order) is run on the iteration orders of "
+                    "`G.N` / `G.incoming[v]` observed in each worker and must emit the real `blocks` (same components, same order); the real "
+                    "blocks are also decided by the verified checker sccCheck"],
     }
 
 
